@@ -88,6 +88,12 @@ def join(a, b):
         return b.w(maybe_none=True, const=None)
     if fb.get('ty') == 'None' and fa.get('ty') != 'None':
         return a.w(maybe_none=True, const=None)
+    # an empty container literal joined with a filled one: the filled one, possibly empty
+    if fa.get('ty') == fb.get('ty') and fa.get('ty') in ('list', 'set', 'dict'):
+        if fa.get('elts') == [] and fb.get('elts') != [] and not fa.get('kw'):
+            return b.w(maybe_empty=True, const=None, litconst=None)
+        if fb.get('elts') == [] and fa.get('elts') != [] and not fb.get('kw'):
+            return a.w(maybe_empty=True, const=None, litconst=None)
     out = {}
     for k in set(fa) | set(fb):
         va, vb = fa.get(k), fb.get(k)
@@ -122,13 +128,41 @@ def join(a, b):
                     out['valset'] = frozenset([va[1], vb[1]]) | (fa.get('valset') or frozenset()) | (fb.get('valset') or frozenset())
                 except TypeError:
                     pass
+            elif k == 'oid':
+                out['oid'] = min(va, vb)
+                out['oids'] = frozenset([va, vb]) | (fa.get('oids') or frozenset()) | (fb.get('oids') or frozenset())
             elif k == 'geo':
-                out['geo_conflict'] = frozenset([va, vb])
+                g = geo_join(va, vb)
+                if g is not None:
+                    out['geo'] = g
+                else:
+                    out['geo_conflict'] = frozenset([va, vb]) | (fa.get('geo_conflict') or frozenset()) | (fb.get('geo_conflict') or frozenset())
     if 'const' in out and 'valset' in out:
         out.pop('valset')
     r = AV()
     r.f = out
     return r
+
+
+_FRAC_ORDER = {'W': 0, 'C': 1, 'N': 2}
+_FDIFF_ORDER = {'MI': 0, 'W1': 1, 'W2': 2, 'CUM': 3, 'ANY': 4}
+
+
+def geo_join(a, b):
+    """Least upper bound of two geometry kinds where one exists (weaker wrapping / reduction claim)."""
+    if a[0] == b[0] == 'FRAC':
+        return a if _FRAC_ORDER.get(a[1], 9) >= _FRAC_ORDER.get(b[1], 9) else b
+    if a[0] == b[0] == 'FDIFF':
+        if a[1] in ('W1', 'W2', 'CUM') or b[1] in ('W1', 'W2', 'CUM'):
+            if a[:2] == b[:2]:
+                return a if len(a) <= len(b) else b
+            return ('FDIFF', 'ANY')
+        if a[1] == 'MEAN' or b[1] == 'MEAN':
+            return ('FDIFF', 'ANY')
+        return a if _FDIFF_ORDER.get(a[1], 9) >= _FDIFF_ORDER.get(b[1], 9) else b
+    if a[0] == b[0] == 'CART' and a[1] == b[1]:
+        return ('CART', a[1], 'pos' if a[2] == b[2] == 'pos' else 'vec')
+    return None
 
 
 def join_all(vals):
@@ -180,7 +214,7 @@ def state_sig(st):
     def s(av):
         return repr(av)
     return (tuple(sorted((k, s(v)) for k, v in st.env.items())),
-            tuple(sorted((o, tuple(sorted((k, s(v)) for k, v in d.items()))) for o, d in st.heap.items())))
+            tuple(sorted(((str(o), tuple(sorted((k, s(v)) for k, v in d.items()))) for o, d in st.heap.items()))))
 
 
 class Frame:
@@ -739,10 +773,19 @@ class Interp:
 
     def obj_attr(self, base, attr, frame, st, node):
         ci = self.p.classes.get(base.cls)
+        if base.oid is None:
+            base = self.new_obj(st, base.cls or 'object', symbolic=True)
         heap = st.heap.setdefault(base.oid, {})
         if attr == '__class__':
             return AV(ty='class', cls=base.cls)
+        if base.oids and not attr.startswith('#'):
+            vals = [st.heap[o][attr] for o in base.oids if o in st.heap and attr in st.heap[o]]
+            if len(vals) > 1:
+                v = join_all(vals)
+                self.emit('attr_read', node, obj=base, attr=attr, value=v)
+                return v
         if attr in heap:
+            self.emit('attr_read', node, obj=base, attr=attr, value=heap[attr])
             return heap[attr]
         if ci is None:
             return TOP
@@ -767,6 +810,7 @@ class Interp:
                 return self.eval_in_module(c.class_attrs[attr], c.module, st)
         r = self.model.obj_attr_ext(self, st, base, ci, attr, node)
         if r is not None:
+            self.emit('attr_read', node, obj=base, attr=attr, value=r)
             return r
         self.note(f'unknown attribute {base.cls}.{attr}', node)
         return TOP
